@@ -73,11 +73,12 @@ Theorem left_pad_hex_spec s n :
              else r = repeat 48 (Z.to_nat n - length s) ++ s).                    (* zero-extension on the left *)
 Proof.
   intros Hn. unfold left_pad_hex, zlen in *.
-  destruct (n <=? Z.of_nat (length s))%Z eqn:E.
-  - destruct (n <? 0)%Z eqn:E2; [lia|]. eexists. split; [reflexivity|]. split; [|reflexivity].
-    rewrite skipn_length. lia.
-  - eexists. split; [reflexivity|]. split; [|reflexivity].
-    rewrite app_length, repeat_length. lia.
+  destruct (n <=? 0)%Z eqn:E0.
+  - assert (n = 0%Z) by lia. subst n. exists []. split; [reflexivity|]. split; [reflexivity|].
+    destruct (0 <=? Z.of_nat (length s))%Z eqn:E; [|lia]. rewrite Nat.sub_0_r. symmetry. apply skipn_all.
+  - destruct (n <=? Z.of_nat (length s))%Z eqn:E.
+    + eexists. split; [reflexivity|]. split; [|reflexivity]. rewrite skipn_length. lia.
+    + eexists. split; [reflexivity|]. split; [|reflexivity]. rewrite app_length, repeat_length. lia.
 Qed.
 
 (** ---------------- hex ---------------- *)
